@@ -107,6 +107,11 @@ package data
 //@   at call (reflect.Value).Bool#0 after set bv = res
 //@   at call (reflect.Value).String#0 after set sv = res
 //@   at call (reflect.Value).String#1 after set sv = res
+//@   ghost k0 reflect.Kind = 0
+//@   ghost n0 bool = false
+//@   at call (reflect.Value).Kind#0 after set k0 = res
+//@   at call (reflect.Value).IsNil#0 after set n0 = res
+//@   at call data.Marshaler.MarshalValue#0 assert[a-nil-pointer-is-null-before-its-methods-are-tried;C20] !(k0 == 22 && n0)
 //@   ghost uv uint64 = 0
 //@   at call (reflect.Value).Uint#0 after set uv = res
 //@   at call (reflect.Value).Uint#1 assert[only-an-unsigned-value-within-the-int64-range-becomes-an-Int;C20] uv <= 9223372036854775807
@@ -135,6 +140,9 @@ package data
 //@   at call strings.ToLower#* forbid[no-byte-wise-case-mapping-of-field-names;C20] false
 //@   at call strings.ToUpper#* forbid[no-byte-wise-case-mapping-of-field-names;C20] false
 //@   at call data.NewWith#0 assert[field-values-converted-with-the-same-options;C20] arg0 == c
+//@   ghost dk reflect.Kind = 0
+//@   at call (reflect.Value).Kind#0 after set dk = res
+//@   at call (reflect.Value).Elem#0 assert[a-pointer-and-only-a-pointer-is-followed-to-the-struct;C20] dk == 22
 //@   ghost nv Value = nil
 //@   at call data.NewWith#0 after set nv = res
 //@   at call mapupdate#0 assert[every-field-value-is-the-one-NewWith-made-of-it;C20] val == nv
